@@ -357,17 +357,17 @@ func init() {
 	vr.Register("analyzer", checkAnalyzer)
 }
 
-func TestLines(t *testing.T) { vr.Prop(t, "lines", vr.N(6000, 150000), genCase, meta, checkLines) }
+func TestLines(t *testing.T) { vr.Prop(t, "lines", vr.N(6000, 100000), genCase, meta, checkLines) }
 func TestColumns(t *testing.T) {
-	vr.Prop(t, "columns", vr.N(6000, 150000), genCase, meta, checkColumns)
+	vr.Prop(t, "columns", vr.N(6000, 100000), genCase, meta, checkColumns)
 }
 func TestReading(t *testing.T) {
-	vr.Prop(t, "reading", vr.N(6000, 150000), genCase, meta, checkReading)
+	vr.Prop(t, "reading", vr.N(6000, 100000), genCase, meta, checkReading)
 }
 func TestParagraphs(t *testing.T) {
-	vr.Prop(t, "paragraphs", vr.N(6000, 150000), genCase, meta, checkParagraphs)
+	vr.Prop(t, "paragraphs", vr.N(6000, 100000), genCase, meta, checkParagraphs)
 }
-func TestBlocks(t *testing.T) { vr.Prop(t, "blocks", vr.N(6000, 150000), genCase, meta, checkBlocks) }
+func TestBlocks(t *testing.T) { vr.Prop(t, "blocks", vr.N(6000, 100000), genCase, meta, checkBlocks) }
 func TestAnalyzer(t *testing.T) {
-	vr.Prop(t, "analyzer", vr.N(6000, 150000), genCase, meta, checkAnalyzer)
+	vr.Prop(t, "analyzer", vr.N(6000, 100000), genCase, meta, checkAnalyzer)
 }
